@@ -397,6 +397,52 @@ Section IncludeFacts.
     induction incs as [|[k fid] incs IH]; intros H; cbn [do_includes]; [reflexivity|].
     destruct (H k fid (or_introl eq_refl)) as [E|E]; rewrite E; apply IH; intros k' f' Hin; apply (H k' f'); right; exact Hin.
   Qed.
+
+  (* a schema that declares no include field at any depth loads every document as it is *)
+  Fixpoint no_incs (s : ischema) : bool :=
+    match s with
+    | ISchema incs subs =>
+        match incs with [] => true | _ => false end &&
+        (fix go (l : list (str * ischema)) : bool :=
+           match l with [] => true | (_, sub) :: r => no_incs sub && go r end) subs
+    end.
+  Fixpoint isize (s : ischema) : nat :=
+    match s with
+    | ISchema _ subs =>
+        S ((fix go (l : list (str * ischema)) : nat :=
+              match l with [] => 0 | (_, sub) :: r => isize sub + go r end) subs)
+    end.
+
+  Lemma process_no_incs_n : forall n s t, (isize s <= n)%nat -> no_incs s = true -> process load_file s t = Ok t.
+  Proof.
+    induction n as [|n IH]; intros [incs subs] t Hs Hn; [cbn in Hs; inversion Hs|].
+    cbn [no_incs] in Hn. apply andb_true_iff in Hn. destruct Hn as [Hi Hsub].
+    destruct incs; [|discriminate]. cbn [process do_includes].
+    cbn [isize] in Hs. apply le_S_n in Hs.
+    revert t Hs Hsub. induction subs as [|[k sub] subs IHs]; intros t Hs Hsub; [reflexivity|].
+    apply andb_true_iff in Hsub. destruct Hsub as [H1 H2].
+    assert (Hle : (isize sub <= n)%nat) by (eapply Nat.le_trans; [apply Nat.le_add_r | exact Hs]).
+    assert (Hrest : forall t', (fix subs_go (subs0 : list (str * ischema)) (t0 : list (str * tree)) {struct subs0} :=
+               match subs0 with
+               | [] => Ok t0
+               | (k0, sub0) :: r =>
+                   match tget k0 t0 with
+                   | Some (TMap m) =>
+                       match process load_file sub0 m with
+                       | Ok m' => subs_go r (tset k0 (TMap m') t0)
+                       | Err e => Err e
+                       | Unmodelled => Unmodelled
+                       end
+                   | _ => subs_go r t0
+                   end
+               end) subs t' = Ok t').
+    { intros t'. apply IHs; [|exact H2]. eapply Nat.le_trans; [|exact Hs]. rewrite Nat.add_comm. apply Nat.le_add_r. }
+    destruct (tget k t) as [[v|m]|] eqn:E; try apply Hrest.
+    rewrite (IH sub m Hle H1). rewrite tset_same by exact E. apply Hrest.
+  Qed.
+
+  Theorem process_no_incs s t : no_incs s = true -> process load_file s t = Ok t.
+  Proof. apply (process_no_incs_n (isize s)). apply Nat.le_refl. Qed.
 End IncludeFacts.
 
 (* ---- non-vacuity ---- *)
@@ -439,3 +485,9 @@ Proof.
   - repeat constructor; cbn; intuition discriminate.
   - cbn. repeat split; repeat constructor; cbn; intuition discriminate.
 Qed.
+
+(* non-vacuity of process_no_incs: a schema with nested schemas and no include field *)
+Example no_incs_example :
+  no_incs (ISchema [] [(sa "a", ISchema [] [(sa "b", ISchema [] [])]); (sa "c", ISchema [] [])]) = true /\
+  no_incs (ISchema [] [(sa "a", ISchema [(sa "inc", 0%N)] [])]) = false.
+Proof. vm_compute. split; reflexivity. Qed.
